@@ -66,6 +66,14 @@ C = [
   [("pkg/core/mpt/trie.go", "slices.Concat(n.key, prefix)", "append(n.key, prefix...)")]),
  ("C11-count-patched-in-place", "C11", "store-value-immutable", "updateRefCount patches the stored slice (the repaired defect)",
   [("pkg/core/mpt/trie.go", "\t\t\tdata = slices.Clone(data)\n", "")]),
+ ("C03-seek-direction-inverted", "C03", "seek-orientation", "TrieStore.Seek skips/keeps the diverging subtree on the wrong side of Start (the repaired defect)",
+  [("pkg/core/mpt/trie_store.go", "if cmp < 0 != rng.Backwards {", "if cmp < 0 == rng.Backwards {")]),
+ ("C10-traverse-ignores-direction", "C10", "seek-orientation", "Billet.traverse decides on an extension node without regard to the scan direction (the repaired defect)",
+  [("pkg/core/mpt/billet.go", "bytes.Compare(n.key, from) > 0 != backwards {", "bytes.Compare(n.key, from) > 0 {")]),
+ ("C09-backward-filter-flipped", "C09", "seek-orientation", "the backward key filter of the memory layer keeps keys after the start",
+  [("pkg/core/storage/memcached_store.go", "cmp.Compare(key[lPrefix:], sStart) <= 0)", "cmp.Compare(key[lPrefix:], sStart) >= 0)")]),
+ ("C09-leveldb-backward-steps-next", "C09", "seek-orientation", "LevelDB backward scan steps with Next",
+  [("pkg/core/storage/leveldb_store.go", "\t\tnext = iter.Prev", "\t\tnext = iter.Next")]),
 ]
 
 root = "/verif/controls"
